@@ -605,6 +605,8 @@ def gen_typed_case(rng):
             keys = [k for k in keys if k != "status"] or ["x"]
         case["fields"] = [gen_field(rng, k) for k in keys]
         case["values"] = [[["s", f["key"]], conforming_value(rng, f)] for f in case["fields"]]
+    if kind == "message":
+        case["via"] = rng.choice(["log", "log", "write_action", "write_logger"])
     exc_name = rng.choice(sorted(EXC_MRO))
     case["exc"] = {"cls": exc_name, "mro": EXC_MRO[exc_name], "text": rng.choice(["boom", "bad thing 7", ""])}
     if kind == "action":
@@ -721,7 +723,15 @@ def impl_validate(case):
         if kind in ("message", "untyped"):
             prev = swap_logger(logger)
             try:
-                if kind == "message":
+                if kind == "message" and case.get("via") == "write_action":
+                    # the less common spelling: build the message, then write it into an explicitly given action
+                    from eliot import Action
+                    from eliot._action import TaskLevel
+                    holder = Action(logger, "c14-holder-uuid", TaskLevel(level=[]), "c14:holder")
+                    T(**values).write(action=holder)
+                elif kind == "message" and case.get("via") == "write_logger":
+                    T(**values).write(logger)
+                elif kind == "message":
                     T.log(**values)
                 else:
                     log_message(case["name"], **values)
